@@ -127,6 +127,7 @@ fn one_request(policy_kind: u8, with_pred: bool, retry_on_reconnect: bool) {
         assert!(calls <= m as usize + 1, "[C16.bounded_attempts] at most max_attempts + 1 calls for one request");
     }
     assert!(mon().last_req == req, "[C16.same_request] every attempt carries the request");
+    assert!(mon().unready_mask & 1 == 0, "[C20.reconnect_first_attempt_ready] the first attempt goes to the instance on which readiness was observed");
     {
         let mut k = 0;
         while k < 4 && k < gh().asks as usize {
@@ -206,6 +207,32 @@ fn not_connected_while_failing() {
     let p = svc::poll_once(fut.as_mut());
     assert!(p.is_pending() && mon().calls == 2 && mon().live == 1, "[C16.retries_after_delay] the retry is issued once the delay has elapsed");
     assert!(shared.state() != ConnectionState::Connected, "[C16.not_connected_while_failing] not Connected while the retried call has not produced a result");
+    std::mem::forget(fut);
+    std::mem::forget(s);
+}
+
+/// KNOWN FINDING witness (C20 readiness): the retried call goes to a clone that never
+/// observed readiness.
+#[kani::proof]
+#[kani::unwind(6)]
+#[kani::stub(std::time::Instant::now, tokio::model::std_instant_now)]
+#[kani::stub(ReconnectPolicy::delay_for_attempt, scripted_delay)]
+fn c20_reconnect_retry_unready() {
+    gh().delays = [Duration::ZERO; 4];
+    let cfg = mk_cfg(2, false, true, None, Duration::ZERO);
+    let shared = ReconnectState::new();
+    let mut script = svc::any_script();
+    script.never = false;
+    script.immediate = true;
+    script.outcomes[0] = Err(kani::any());
+    script.outcomes[1] = Ok(kani::any());
+    let mut s = ReconnectService::new(Inner::new(script), Arc::new(cfg), shared.clone());
+    let _ = svc::poll_ready_once(&mut s);
+    let mut fut = Box::pin(s.call(kani::any()));
+    let p = svc::poll_once(fut.as_mut());
+    assert!(p.is_ready() && mon().calls == 2, "[C16.retries_after_delay] a zero delay retries at once");
+    assert!(mon().unready_mask & 1 == 0, "[C20.reconnect_first_attempt_ready] the first attempt goes to the instance on which readiness was observed");
+    assert!(mon().unready_mask & 2 == 0, "[C20.reconnect_retry_unready] the retried call goes to an instance on which readiness was observed");
     std::mem::forget(fut);
     std::mem::forget(s);
 }
